@@ -47,9 +47,20 @@ func clientTLS() *tls.Config {
 	return &tls.Config{RootCAs: ca.Pool(), ServerName: refHost, MinVersion: tls.VersionTLS12}
 }
 
+func (c smtpCfg) clientTLS() *tls.Config {
+	cfg := clientTLS()
+	if c.SessionCache {
+		cfg.ClientSessionCache = tls.NewLRUClientSessionCache(8)
+	}
+	return cfg
+}
+
 // smtpCfg is the serialisable client configuration used by the SMTP checks.
 type smtpCfg struct {
 	TLS       string   `json:"tls"`            // none | opportunistic | mandatory
+	// SessionCache: the caller's tls.Config has a ClientSessionCache, so a second connection of the
+	// same Client resumes the TLS session of the first.
+	SessionCache bool `json:"session_cache,omitempty"`
 	Auth      string   `json:"auth,omitempty"` // "" or a mail.SMTPAuthType value
 	User      string   `json:"user,omitempty"`
 	Pass      string   `json:"pass,omitempty"`
@@ -71,12 +82,12 @@ func (cfg *smtpCfg) options(d *refsmtp.Dialer) []mail.Option {
 		opts = append(opts, mail.WithTLSPolicy(mail.NoTLS))
 	case "opportunistic":
 		if cfg.Fallback {
-			opts = append(opts, mail.WithTLSPortPolicy(mail.TLSOpportunistic), mail.WithTLSConfig(clientTLS()))
+			opts = append(opts, mail.WithTLSPortPolicy(mail.TLSOpportunistic), mail.WithTLSConfig(cfg.clientTLS()))
 		} else {
-			opts = append(opts, mail.WithTLSPolicy(mail.TLSOpportunistic), mail.WithTLSConfig(clientTLS()))
+			opts = append(opts, mail.WithTLSPolicy(mail.TLSOpportunistic), mail.WithTLSConfig(cfg.clientTLS()))
 		}
 	default:
-		opts = append(opts, mail.WithTLSPolicy(mail.TLSMandatory), mail.WithTLSConfig(clientTLS()))
+		opts = append(opts, mail.WithTLSPolicy(mail.TLSMandatory), mail.WithTLSConfig(cfg.clientTLS()))
 	}
 	if cfg.Auth != "" {
 		opts = append(opts, mail.WithSMTPAuth(mail.SMTPAuthType(cfg.Auth)), mail.WithUsername(cfg.User), mail.WithPassword(cfg.Pass))
